@@ -55,7 +55,7 @@ func (s *surf3) setup(c *child) error {
 	return nil
 }
 
-func (s *surf3) close()                              { s.e.close() }
+func (s *surf3) close()                          { s.e.close() }
 func (s *surf3) timeout(in *Input) time.Duration { return 10 * time.Second }
 
 func genFIPObject(g *G) *v1alpha1.FloatingIP {
@@ -241,6 +241,12 @@ func (s *surf3) gen(idx int) *Input {
 	if d.kind == "crd" {
 		show["replicas_asked_first"] = d.replicasFirst
 	}
+	switch class {
+	case "crd-no-versions":
+		show["deliverability"] = "apiextensions.k8s.io/v1 validation requires at least one version: only a non-validating source (or the fake) delivers this object"
+	case "deployment-nil-replicas":
+		show["deliverability"] = "apps/v1 defaulting sets spec.replicas=1: only a non-defaulting source (or the fake) delivers this object"
+	}
 	return &Input{Class: class, Op: "deliver-" + d.kind, Show: show, data: d}
 }
 
@@ -354,10 +360,16 @@ func (s *surf3) call(in *Input) (string, string) {
 		}
 		defer func() {
 			_ = e.kube.AppsV1().Deployments(dp.Namespace).Delete(ctx, dp.Name, metav1.DeleteOptions{})
-			waitFor(func() bool { _, err := e.ctx.DeploymentLister.Deployments(dp.Namespace).Get(dp.Name); return err != nil })
+			waitFor(func() bool {
+				_, err := e.ctx.DeploymentLister.Deployments(dp.Namespace).Get(dp.Name)
+				return err != nil
+			})
 			s.releasePrefix("dp_")
 		}()
-		waitFor(func() bool { _, err := e.ctx.DeploymentLister.Deployments(dp.Namespace).Get(dp.Name); return err == nil })
+		waitFor(func() bool {
+			_, err := e.ctx.DeploymentLister.Deployments(dp.Namespace).Get(dp.Name)
+			return err == nil
+		})
 		// an address held by a pod of this deployment, so that unbind and resync have something to decide
 		if ko, err := util.FormatKey(d.pod); err == nil && ko.PoolName == "" {
 			_ = ipam.AllocateSpecificIP(ko.KeyInDB, net.ParseIP("10.0.70.15"), floatingip.Attr{Policy: constant.ConvertReleasePolicy(d.policy)})
@@ -373,10 +385,16 @@ func (s *surf3) call(in *Input) (string, string) {
 		}
 		defer func() {
 			_ = e.kube.AppsV1().StatefulSets(st.Namespace).Delete(ctx, st.Name, metav1.DeleteOptions{})
-			waitFor(func() bool { _, err := e.ctx.StatefulSetLister.StatefulSets(st.Namespace).Get(st.Name); return err != nil })
+			waitFor(func() bool {
+				_, err := e.ctx.StatefulSetLister.StatefulSets(st.Namespace).Get(st.Name)
+				return err != nil
+			})
 			s.releasePrefix("sts_" + st.Namespace + "_sts-xxx_")
 		}()
-		waitFor(func() bool { _, err := e.ctx.StatefulSetLister.StatefulSets(st.Namespace).Get(st.Name); return err == nil })
+		waitFor(func() bool {
+			_, err := e.ctx.StatefulSetLister.StatefulSets(st.Namespace).Get(st.Name)
+			return err == nil
+		})
 		if ko, err := util.FormatKey(d.pod); err == nil {
 			_ = ipam.AllocateSpecificIP(ko.KeyInDB, net.ParseIP("10.0.70.16"), floatingip.Attr{Policy: constant.ConvertReleasePolicy(d.policy)})
 		}
